@@ -1,5 +1,6 @@
 //! C01 - short messages preserve their bytes: lossless, canonical round trips.
 use crate::dom::*;
+use crate::check;
 use crate::nd::Nd;
 use crate::oracle as o;
 use crate::witness;
@@ -14,18 +15,18 @@ fn bytes_u8(b: (u8, U7, U7)) -> (u8, u8, u8) {
 pub fn from_bytes_raw<N: Nd>(nd: &mut N) {
     let t = any_triple(nd);
     let r = RawShortMessage::from_bytes(bytes_of(t));
-    assert!(r.is_ok() == (t.0 >= 0x80), "C01 raw from_bytes accepts iff status >= 0x80");
+    check!(r.is_ok() == (t.0 >= 0x80), "C01 raw from_bytes accepts iff status >= 0x80");
     let r2 = RawShortMessage::try_from(bytes_of(t));
-    assert!(r2.is_ok() == r.is_ok(), "C01 raw TryFrom agrees with from_bytes");
+    check!(r2.is_ok() == r.is_ok(), "C01 raw TryFrom agrees with from_bytes");
     if let Ok(m) = r {
         witness!(nd, true, "accepted");
-        assert!(m.status_byte() == t.0, "C01 raw status byte verbatim");
-        assert!(m.data_byte_1().get() == t.1, "C01 raw data byte 1 verbatim");
-        assert!(m.data_byte_2().get() == t.2, "C01 raw data byte 2 verbatim");
-        assert!(bytes_u8(m.to_bytes()) == t, "C01 raw to_bytes verbatim");
+        check!(m.status_byte() == t.0, "C01 raw status byte verbatim");
+        check!(m.data_byte_1().get() == t.1, "C01 raw data byte 1 verbatim");
+        check!(m.data_byte_2().get() == t.2, "C01 raw data byte 2 verbatim");
+        check!(bytes_u8(m.to_bytes()) == t, "C01 raw to_bytes verbatim");
         let tup: (u8, U7, U7) = m.into();
-        assert!(bytes_u8(tup) == t, "C01 raw Into<(u8,U7,U7)> verbatim");
-        assert!(r2.ok().unwrap() == m, "C01 raw TryFrom equals from_bytes");
+        check!(bytes_u8(tup) == t, "C01 raw Into<(u8,U7,U7)> verbatim");
+        check!(r2.ok().unwrap() == m, "C01 raw TryFrom equals from_bytes");
     } else {
         witness!(nd, true, "rejected");
     }
@@ -35,14 +36,14 @@ pub fn from_bytes_raw<N: Nd>(nd: &mut N) {
 pub fn from_bytes_structured<N: Nd>(nd: &mut N) {
     let t = any_triple(nd);
     let r = StructuredShortMessage::from_bytes(bytes_of(t));
-    assert!(r.is_ok() == (t.0 >= 0x80), "C01 structured from_bytes accepts iff status >= 0x80");
+    check!(r.is_ok() == (t.0 >= 0x80), "C01 structured from_bytes accepts iff status >= 0x80");
     if let Ok(m) = r {
         witness!(nd, true, "accepted");
         let c = o::canon(t.0, t.1, t.2);
-        assert!(m.status_byte() == c.0, "C01 structured status byte");
-        assert!(m.data_byte_1().get() == c.1, "C01 structured data byte 1 canonical");
-        assert!(m.data_byte_2().get() == c.2, "C01 structured data byte 2 canonical");
-        assert!(bytes_u8(m.to_bytes()) == c, "C01 structured to_bytes canonical");
+        check!(m.status_byte() == c.0, "C01 structured status byte");
+        check!(m.data_byte_1().get() == c.1, "C01 structured data byte 1 canonical");
+        check!(m.data_byte_2().get() == c.2, "C01 structured data byte 2 canonical");
+        check!(bytes_u8(m.to_bytes()) == c, "C01 structured to_bytes canonical");
         witness!(nd, c != t, "canonicalisation changed something");
     } else {
         witness!(nd, true, "rejected");
@@ -53,16 +54,16 @@ pub fn from_bytes_structured<N: Nd>(nd: &mut N) {
 pub fn from_bytes_foreign<N: Nd>(nd: &mut N) {
     let t = any_triple(nd);
     let r = Foreign::from_bytes(bytes_of(t));
-    assert!(r.is_ok() == (t.0 >= 0x80), "C01 foreign from_bytes accepts iff status >= 0x80");
+    check!(r.is_ok() == (t.0 >= 0x80), "C01 foreign from_bytes accepts iff status >= 0x80");
     if let Ok(m) = r {
         witness!(nd, true, "accepted");
-        assert!(bytes_u8(m.to_bytes()) == t, "C01 foreign to_bytes verbatim");
+        check!(bytes_u8(m.to_bytes()) == t, "C01 foreign to_bytes verbatim");
     }
     let r = ForeignBytes::from_bytes(bytes_of(t));
-    assert!(r.is_ok() == (t.0 >= 0x80), "C01 foreign(2) from_bytes accepts iff status >= 0x80");
+    check!(r.is_ok() == (t.0 >= 0x80), "C01 foreign(2) from_bytes accepts iff status >= 0x80");
     if let Ok(m) = r {
-        assert!(bytes_u8(m.to_bytes()) == t, "C01 foreign(2) to_bytes verbatim");
-        assert!(
+        check!(bytes_u8(m.to_bytes()) == t, "C01 foreign(2) to_bytes verbatim");
+        check!(
             (m.status_byte(), m.data_byte_1().get(), m.data_byte_2().get()) == t,
             "C01 foreign(2) getters verbatim"
         );
@@ -73,26 +74,26 @@ pub fn from_bytes_foreign<N: Nd>(nd: &mut N) {
 pub fn structured_values<N: Nd>(nd: &mut N, variant: u8) {
     let (v, t) = structured_of_variant(nd, variant);
     let b = v.to_bytes();
-    assert!(b.0 >= 0x80, "C01 structured value has a valid status byte");
-    assert!(bytes_u8(b) == t, "C01 structured value reports its canonical bytes");
-    assert!(
+    check!(b.0 >= 0x80, "C01 structured value has a valid status byte");
+    check!(bytes_u8(b) == t, "C01 structured value reports its canonical bytes");
+    check!(
         (v.status_byte(), v.data_byte_1().get(), v.data_byte_2().get()) == t,
         "C01 structured getters agree with to_bytes"
     );
-    assert!(o::canon(t.0, t.1, t.2) == t, "harness: expected triple is canonical");
+    check!(o::canon(t.0, t.1, t.2) == t, "harness: expected triple is canonical");
     let back = StructuredShortMessage::from_bytes(b);
-    assert!(back.is_ok(), "C01 structured bytes are accepted");
-    assert!(back.ok().unwrap() == v, "C01 from_bytes(to_bytes(v)) == v");
+    check!(back.is_ok(), "C01 structured bytes are accepted");
+    check!(back.ok().unwrap() == v, "C01 from_bytes(to_bytes(v)) == v");
     let raw: RawShortMessage = v.to_other();
-    assert!(bytes_u8(raw.to_bytes()) == t, "C01 structured -> raw keeps the bytes");
-    assert!(raw.to_structured() == v, "C01 structured -> raw -> structured == v");
-    assert!(StructuredShortMessage::from_other(&v) == v, "C01 from_other(v) == v");
-    assert!(v.to_structured() == v, "C01 to_structured is the identity on structured");
+    check!(bytes_u8(raw.to_bytes()) == t, "C01 structured -> raw keeps the bytes");
+    check!(raw.to_structured() == v, "C01 structured -> raw -> structured == v");
+    check!(StructuredShortMessage::from_other(&v) == v, "C01 from_other(v) == v");
+    check!(v.to_structured() == v, "C01 to_structured is the identity on structured");
     let same: StructuredShortMessage = v.to_other();
-    assert!(same == v, "C01 to_other::<Structured> is the identity");
+    check!(same == v, "C01 to_other::<Structured> is the identity");
     let f: Foreign = v.to_other();
-    assert!(f.to_structured() == v, "C01 structured -> foreign -> structured == v");
-    assert!(RawShortMessage::from_other(&v) == raw, "C01 Raw::from_other == to_other");
+    check!(f.to_structured() == v, "C01 structured -> foreign -> structured == v");
+    check!(RawShortMessage::from_other(&v) == raw, "C01 Raw::from_other == to_other");
     witness!(nd, true, "value built");
 }
 
@@ -104,19 +105,19 @@ pub fn raw_structured_raw<N: Nd>(nd: &mut N) {
     let r2: RawShortMessage = s1.to_other();
     let s2 = r2.to_structured();
     let c = o::canon(t.0, t.1, t.2);
-    assert!(bytes_u8(r2.to_bytes()) == c, "C01 raw->structured->raw is canonical");
-    assert!(s1 == s2, "C01 raw->structured->raw->structured is idempotent");
+    check!(bytes_u8(r2.to_bytes()) == c, "C01 raw->structured->raw is canonical");
+    check!(s1 == s2, "C01 raw->structured->raw->structured is idempotent");
     let r3: RawShortMessage = s2.to_other();
-    assert!(r3 == r2, "C01 second round trip changes nothing");
-    assert!(s1 == expected_structured(t), "C01 structured form follows the table");
-    assert!(StructuredShortMessage::from_other(&r1) == s1, "C01 from_other(raw) == to_structured");
+    check!(r3 == r2, "C01 second round trip changes nothing");
+    check!(s1 == expected_structured(t), "C01 structured form follows the table");
+    check!(StructuredShortMessage::from_other(&r1) == s1, "C01 from_other(raw) == to_structured");
     // nothing meaningful lost: the canonical raw differs from the original only where the
     // message type carries no information
     if o::uses_d1(t.0) && !(o::type_byte(t.0) == 0xF1 && (t.1 >> 4) == 7) {
-        assert!(c.1 == t.1, "C01 used data byte 1 preserved");
+        check!(c.1 == t.1, "C01 used data byte 1 preserved");
     }
     if o::uses_d2(t.0) {
-        assert!(c.2 == t.2, "C01 used data byte 2 preserved");
+        check!(c.2 == t.2, "C01 used data byte 2 preserved");
     }
     witness!(nd, c != t, "lossy-looking case");
     witness!(nd, c == t, "already canonical case");
@@ -128,12 +129,12 @@ pub fn quarter_frame<N: Nd>(nd: &mut N) {
     let f = TimeCodeQuarterFrame::from(u7v(b));
     let back: U7 = f.into();
     let expect = if (b >> 4) == 7 { b & 0x77 } else { b };
-    assert!(back.get() == expect, "C01 U7 -> frame -> U7 clears only the reserved bit");
-    assert!(f == quarter_frame_of(b >> 4, b & 15), "C01 frame decoded per nibble table");
+    check!(back.get() == expect, "C01 U7 -> frame -> U7 clears only the reserved bit");
+    check!(f == quarter_frame_of(b >> 4, b & 15), "C01 frame decoded per nibble table");
     let g = any_quarter_frame(nd);
     let gb: U7 = g.into();
-    assert!(gb.get() <= 127, "C01 frame byte is 7-bit");
-    assert!(TimeCodeQuarterFrame::from(gb) == g, "C01 frame -> U7 -> frame is the identity");
+    check!(gb.get() <= 127, "C01 frame byte is 7-bit");
+    check!(TimeCodeQuarterFrame::from(gb) == g, "C01 frame -> U7 -> frame is the identity");
     witness!(nd, (b >> 4) == 7 && (b & 8) != 0, "reserved bit set");
 }
 
@@ -141,23 +142,23 @@ pub fn quarter_frame<N: Nd>(nd: &mut N) {
 pub fn type_u8<N: Nd>(nd: &mut N) {
     let b = nd.u8();
     let r = ShortMessageType::try_from(b);
-    assert!(r.is_ok() == o::is_type_byte(b), "C01 type byte accepted iff one of the 23");
+    check!(r.is_ok() == o::is_type_byte(b), "C01 type byte accepted iff one of the 23");
     if let Ok(t) = r {
         witness!(nd, true, "accepted");
-        assert!(u8::from(t) == b, "C01 type -> u8 returns the byte");
-        assert!(type_byte_of(t) == b, "C01 type variant matches the byte");
+        check!(u8::from(t) == b, "C01 type -> u8 returns the byte");
+        check!(type_byte_of(t) == b, "C01 type variant matches the byte");
     }
     let i = nd.u8_le(22);
     let t = type_of_index(i);
     let tb: u8 = t.into();
-    assert!(tb == o::TYPE_BYTES[i as usize], "C01 type -> u8 follows the table");
-    assert!(ShortMessageType::try_from(tb).ok() == Some(t), "C01 u8 -> type inverts");
-    assert!(ShortMessageType::MIN == 0x80 && ShortMessageType::MAX == 0xFF, "C01 type MIN/MAX");
+    check!(tb == o::TYPE_BYTES[i as usize], "C01 type -> u8 follows the table");
+    check!(ShortMessageType::try_from(tb).ok() == Some(t), "C01 u8 -> type inverts");
+    check!(ShortMessageType::MIN == 0x80 && ShortMessageType::MAX == 0xFF, "C01 type MIN/MAX");
 }
 
 /// Witness twin: must be refuted by the solver (status 0x80 is accepted).
 pub fn twin<N: Nd>(nd: &mut N) {
     let t = any_triple(nd);
     let r = RawShortMessage::from_bytes(bytes_of(t));
-    assert!(r.is_ok() == (t.0 > 0x80), "twin: deliberately wrong boundary");
+    check!(r.is_ok() == (t.0 > 0x80), "twin: deliberately wrong boundary");
 }
